@@ -14,6 +14,21 @@ COMMON_NOTE = ('Trusted base: pyvc interpreter of the Python subset (A1), assume
                'Skolemisation/induction/Hoare schema of pyvc (A7). Bounded entries in the evidence are a stand-in and are not counted as proved. ')
 
 CLAIMED = {
+    'C04': dict(
+        text='Representation invariant (flag -> cached == F(values, dt, settings), F defined by running the real generator from a cold cache) proved preserved by EVERY public operation of Signal and '
+             'AccSignal from an ARBITRARY state satisfying it (symbolic cache flags, symbolic record/settings of symbolic length): 53 mutator / settings / generator operations incl. the attribute write '
+             'response_times=x, 19 readers (idempotent, return the fresh-object value, leave values/dt/settings untouched), and the constructors. By induction over histories this covers all finite interleavings with no bound. '
+             'Each obligation is observational: every reader of the post-state equals the reader of a cold clone.',
+        note='The numerical kernels (FFT, Konno-Ohmachi smoothing, response spectra, filters, polyfit) are summarised as deterministic functions of their arguments (only determinism matters for staleness). '
+             'Explicit generator calls with non-default, non-persistent arguments (gen_fa_spectrum(p2_plus/n), gen_response_spectrum(xi=, min_dt_ratio=), ...(trap=False), band=) are outside the property\'s operation list. Pre-state fixes response_times[0] > 0.',
+        ref='DESIGN.md 7 C04'),
+    'C05': dict(
+        text='(a) Unbounded: the constructors (array/list/tuple, float/int) and every public mutator, run from an arbitrary state, leave values a numeric ndarray on a buffer no caller array shares, len == npts, '
+             'time == dt*[0..npts-1], and write no array argument (alias tracking of the executor: buffers, views, in-place operators). (b) Frame: 57 public array-level functions of sdof, im, displacements, fns.*, stockwell, '
+             'surface, multiple leave every array/signal argument unchanged - bounded symbolic (n=4, P=2, all real inputs) with the executor\'s store tracking.',
+        note='Part (b) is bounded, not proved (the alias rule itself is size independent, but the run is at concrete sizes). scipy.fftpack.fft(overwrite_x=True) effect contract: may write x only if x is a complex ndarray (observed on scipy 1.18.1). '
+             'Integer-dtype AccSignal in-place baseline corrections raise UFuncTypeError before modifying anything (recorded in DESIGN.md, not a listed clause).',
+        ref='DESIGN.md 7 C05'),
     'C08': dict(
         text='Unbounded proof (symbolic length, symbolic dt) from the real AST that calc_velo_and_disp_from_accel_arr (both trap branches, float and '
              'int records) returns series of the record length starting at 0 with exactly the trapezoid / rectangle increments, that the '
